@@ -270,6 +270,10 @@ func (h *historyPart) OnSent(w *World, st *StepRec, sr sentRec, exp Exp) *Violat
 			hi = min(hi, p+1)
 		}
 	}
+	if (hasFromP && hasAfterP) || (hasBeforeP && hasUntilP) {
+		anyReply("two publication bounds on the same side")
+		return nil
+	}
 	if (hasFromP || hasAfterP) && (hasBeforeP || hasUntilP) && lo >= hi {
 		anyReply("publication bounds that describe an empty or inverted window")
 		return nil
